@@ -29,6 +29,13 @@ pub fn analyze_sub_attributes(attributes: &[syn::Attribute]) -> Vec<SubAttribute
         .collect()
 }
 
+pub fn is_async_trait(attribute: &syn::Attribute) -> bool {
+    matches!(
+        analyze_sub_attributes(std::slice::from_ref(attribute)).first(),
+        Some(SubAttribute::AsyncTrait(_))
+    )
+}
+
 pub fn contains_async_trait(sub_attributes: &[SubAttribute]) -> bool {
     sub_attributes
         .iter()
